@@ -104,6 +104,33 @@ fn main() {
     }
     run_grid(&ctx, GridSpec { name: "as-core-d2".into(), cfgs, bound: if quick { 2 } else { 3 }, max_exec_per_cfg: if quick { 30_000 } else { 2_000_000 }, wall_cap_s: if quick { 15.0 } else { 900.0 } });
 
+    // --- leg 2b: a remote goes away with requests still in flight and a remote with the same
+    // routing id attaches again (an agent-to-agent link keeps its id across reconnects)
+    let reattach: Vec<Vec<(usize, Step)>> = vec![
+        vec![(0, link("v")), (0, sync("m")), (0, Step::Detach), (1, Step::Attach(0)), (1, act(&["@upd{k:1,v:1}"])), (1, act(&["@setv(5)"])), (1, sync("m"))],
+        vec![(0, sync("v")), (0, Step::Detach), (1, Step::Attach(0)), (1, cmd("v", "3")), (1, link("v")), (1, cmd("v", "4"))],
+        vec![(0, link("s")), (0, sync("m")), (0, act(&["@push(1)"])), (0, Step::Detach), (1, Step::Attach(0)), (1, act(&["@push(2)", "@upd{k:1,v:1}"])), (1, sync("m"))],
+        vec![(0, sync("m")), (0, sync("v")), (0, sync("s")), (0, Step::Detach), (1, Step::Attach(0)), (1, act(&["@upd{k:2,v:2}", "@setv(6)", "@push(3)"]))],
+    ];
+    let mut cfgs = vec![];
+    for script in &reattach {
+        for cap in [8usize, 4096] {
+            for budget in [2usize, 64] {
+                for mode in [Mode::Eager, Mode::Burst, Mode::SlowRead] {
+                    for lane_buf in [4096usize, 8] {
+                        let mut c = Cfg::basic(script.clone(), 2);
+                        c.cap = cap;
+                        c.budget = budget;
+                        c.mode = mode;
+                        c.lane_buf = lane_buf;
+                        cfgs.push(c);
+                    }
+                }
+            }
+        }
+    }
+    run_grid(&ctx, GridSpec { name: "as-reattach-d2".into(), cfgs, bound: if quick { 2 } else { 3 }, max_exec_per_cfg: if quick { 30_000 } else { 2_000_000 }, wall_cap_s: if quick { 12.0 } else { 600.0 } });
+
     // --- leg 3: faults (stop / remote disconnect at every position), d <= 1 (2 thorough)
     let mut cfgs = vec![];
     for (i, a) in p.iter().enumerate() {
